@@ -315,7 +315,10 @@ pub enum DecodeError {
 }
 
 /// decode the object headers of a fragment body; `data_present` = objects carry data (false for READ requests)
-pub fn decode_objects(body: &[u8], data_present: bool) -> Result<(Vec<HeaderInfo>, Vec<Obj>), DecodeError> {
+pub fn decode_objects(
+    body: &[u8],
+    data_present: bool,
+) -> Result<(Vec<HeaderInfo>, Vec<Obj>), DecodeError> {
     decode_objects_with(body, data_present, false)
 }
 
@@ -326,7 +329,11 @@ pub fn count_only_event_group(group: u8) -> bool {
 
 /// as `decode_objects`; with `lenient_counts`, count-qualified headers of event groups carry no data even in a response
 /// (the reading of the library's parser, which is shared between requests and responses)
-pub fn decode_objects_with(body: &[u8], data_present: bool, lenient_counts: bool) -> Result<(Vec<HeaderInfo>, Vec<Obj>), DecodeError> {
+pub fn decode_objects_with(
+    body: &[u8],
+    data_present: bool,
+    lenient_counts: bool,
+) -> Result<(Vec<HeaderInfo>, Vec<Obj>), DecodeError> {
     let mut headers = Vec::new();
     let mut objects = Vec::new();
     let mut pos = 0usize;
@@ -379,12 +386,24 @@ pub fn decode_objects_with(body: &[u8], data_present: bool, lenient_counts: bool
             0x5B => {
                 // free format: count, then per object a 16-bit size and that many octets
                 let n = take(&mut pos, 1)?[0] as usize;
-                headers.push(HeaderInfo { group, var, qualifier: qual, count: n, start: None });
+                headers.push(HeaderInfo {
+                    group,
+                    var,
+                    qualifier: qual,
+                    count: n,
+                    start: None,
+                });
                 for _ in 0..n {
                     let sz = take(&mut pos, 2)?;
                     let sz = u16::from_le_bytes([sz[0], sz[1]]) as usize;
                     let raw = take(&mut pos, sz)?.to_vec();
-                    objects.push(Obj { group, var, index: None, raw, header_no });
+                    objects.push(Obj {
+                        group,
+                        var,
+                        index: None,
+                        raw,
+                        header_no,
+                    });
                 }
                 header_no += 1;
                 continue;
@@ -399,7 +418,8 @@ pub fn decode_objects_with(body: &[u8], data_present: bool, lenient_counts: bool
             start,
         });
         let size = obj_size(group, var).ok_or(DecodeError::UnknownObject(group, var))?;
-        let dataless = lenient_counts && matches!(qual, 0x07 | 0x08) && count_only_event_group(group);
+        let dataless =
+            lenient_counts && matches!(qual, 0x07 | 0x08) && count_only_event_group(group);
         if data_present && qual != 0x06 && !dataless {
             match size {
                 ObjSize::Empty => {}
@@ -559,7 +579,15 @@ pub fn layout(group: u8, var: u8) -> Option<Layout> {
     use PointType::*;
     use TimeField as T;
     use ValField as V;
-    let l = |ptype, is_event, flags, val, time| Some(Layout { ptype, is_event, flags, val, time });
+    let l = |ptype, is_event, flags, val, time| {
+        Some(Layout {
+            ptype,
+            is_event,
+            flags,
+            val,
+            time,
+        })
+    };
     match (group, var) {
         (1, 1) => l(Binary, false, false, V::Packed, T::None),
         (1, 2) => l(Binary, false, true, V::InFlags, T::None),
